@@ -170,6 +170,41 @@ func checkSpendPasses(c *Ctx, rule string, leaseOnly bool) {
 		if !leaseOnly {
 			c.Check(rule, "pass-consults-unconfirmed-spender:"+sp.name, sp.fn.Pos(), nSpent > 0, "this spendability pass never consults the unconfirmed-spender index (existsRawUnminedInput): outputs spent by an unconfirmed tx are counted/offered")
 		}
+		// the lease test must ask about the output this iteration is looking at: the outpoint variable handed to
+		// isLockedOutput is (re)written in this pass on every path to the test (a variable shared with an earlier
+		// pass still holds that pass's last outpoint)
+		for i, call := range callsNamed(sp.fn, "isLockedOutput") {
+			if len(call.Call.Args) < 2 {
+				continue
+			}
+			arg := stripConv(call.Call.Args[1])
+			u, isLoad := arg.(*ssa.UnOp)
+			if !isLoad || u.Op != token.MUL {
+				continue // computed in place (composite literal value): necessarily this iteration's
+			}
+			addr := u.X
+			writes := func(ins ssa.Instruction) bool {
+				switch x := ins.(type) {
+				case *ssa.Store:
+					if x.Addr == addr {
+						return true
+					}
+					if fa, ok := x.Addr.(*ssa.FieldAddr); ok && fa.X == addr {
+						return true
+					}
+				case *ssa.Call:
+					for _, a := range x.Call.Args {
+						if a == addr {
+							return true
+						}
+					}
+				}
+				return false
+			}
+			q := &PathQuery{Fn: sp.fn, Barrier: writes, Target: func(ins ssa.Instruction, _ *ssa.BasicBlock) bool { return ins == ssa.Instruction(call) }}
+			c.Check(rule, fmt.Sprintf("lease-test-about-iterated-output:%s#%d", sp.name, i+1), call.Pos(), len(q.From(nil)) == 0,
+				"the outpoint handed to isLockedOutput is not (re)computed from the record this pass is iterating over: the lease state of a stale outpoint (left by an earlier pass) decides about every credit of this pass")
+		}
 		if len(sp.actions) == 0 {
 			c.Check(rule, "pass-has-accumulation:"+sp.name, sp.fn.Pos(), false, "no accumulation into the result found in this pass (undecided)")
 			continue
